@@ -365,7 +365,7 @@ func classify(t []string, m *impl, preKind func(string) string) string {
 			case s.acc == 1:
 				return "read-on-wronly-handle"
 			case t[2] == "0":
-				return "read-zero-at-eof"
+				return "read-zero-length"
 			}
 		}
 	case "readdir":
@@ -376,7 +376,13 @@ func classify(t []string, m *impl, preKind func(string) string) string {
 		a, _ := pathTok(t[1])
 		b, _ := pathTok(t[2])
 		if slashClean(a) == slashClean(b) {
-			return "rename-same-name-missing"
+			switch {
+			case slashClean(a) == "/":
+				return "rename-root-to-itself"
+			case preKind(a) == "":
+				return "rename-same-name-missing"
+			}
+			return "allowed:rename-over-existing"
 		}
 		if preKind(b) != "" {
 			return "allowed:rename-over-existing"
@@ -461,6 +467,16 @@ func exec(ops []string, o *vu.Out) {
 		if same && t[0] != "snap" && t[0] != "stat" && t[0] != "fstat" {
 			sm, so = m.snapshot(), shadow.snapshot()
 			same = sm == so
+			// unlinked files are visible only through their handles: compare sizes
+			for k := 0; same && k < len(m.slots) && k < len(shadow.slots); k++ {
+				if m.slots[k] != nil && shadow.slots[k] != nil {
+					if a, b := statLine(m.slots[k].f.Stat()), statLine(shadow.slots[k].f.Stat()); a != b {
+						same = false
+						sm += fmt.Sprintf(" [slot %d: %s]", k, a)
+						so += fmt.Sprintf(" [slot %d: %s]", k, b)
+					}
+				}
+			}
 		}
 		if same {
 			continue
